@@ -189,4 +189,19 @@ def check(ctx, build=None):
 
 
 def replay(ctx, path):
-    return check(ctx)
+    """re-run the layout stored in the replay file (the files themselves are in it)"""
+    obj = json.load(open(path))
+    inp = obj.get("input", {})
+    if inp.get("proto") != "c04" or "files" not in inp:
+        return check(ctx)
+    build = C.ensure_built("C04", ["printer"], need_harness=False, extra_go=EXTRA_GO)
+    _, decls = c04gen.package(inp["seed"], ndecls=8 + inp["seed"] % 12)
+    scratch = C.scratch()
+    try:
+        res = analyse(inp["files"], decls, scratch, build)
+    finally:
+        shutil.rmtree(scratch, ignore_errors=True)
+    print(json.dumps({"accepted": res["accepted"], "problems": res["problems"][:5], "emitted_order": res["order"]}, indent=1))
+    bad = (not res["accepted"]) or bool(res["problems"])
+    print("verdict:", "violates the property" if bad else "meets the property")
+    return 1 if bad else 0
